@@ -331,6 +331,11 @@ func (w *Writer) appendEntry(e types.LogEntry) error {
 			w.info.BaseIndex, e.Index, w.info.BaseIndex+uint64(len(offsets)))
 	}
 
+	// Refuse entries that readers would later reject as corrupt.
+	if len(e.Data) > MaxEntrySize {
+		return ErrTooBig
+	}
+
 	fh := frameHeader{
 		typ: FrameEntry,
 		len: uint32(len(e.Data)),
